@@ -10,7 +10,7 @@ def main():
     run = Run('C12', anchors=ANCHORS)
 
     def body():
-        entries = ['VerifHarness_C12_Paths', 'VerifHarness_C12_DepthGuard']
+        entries = ['VerifHarness_C12_Paths', 'VerifHarness_C12_Options', 'VerifHarness_C12_DepthGuard']
         H = ['c12_harness.go', 'c12_intr_sym.go']
         prog, secs = driver.load('prover', 'prover', H, entries)
         run.log('SSA of %d functions built in %.1fs' % (len(prog['funcs']), secs))
